@@ -546,6 +546,17 @@ pub fn run(cfg: &Cfg, c14: bool) -> (&'static str, Report, String, String) {
             dfs(r, &mut cx, p, false, cfg.by(1, 2, 3));
         }
     }));
+    // chars whose *last* UTF-8 byte is an ASCII whitespace byte with the high bit set (0x85, 0x89..0x8D, 0xA0)
+    // or otherwise special as a lone byte: byte-wise trimming / matching must not cut through them
+    let talpha = ["a", " ", "\u{85}", "\u{a0}", "à", "ą", "\u{2009}", "\u{200c}", "\u{200d}", "\u{1f9e0}"];
+    let ts = strings_upto(&talpha, cfg.by(1, 3, 3));
+    rep.merge(par_for(cfg, ts.len(), |i, r| {
+        for &base in bases {
+            let mut cx = Ctx { s: &ts[i], base, c14, hist: Vec::new() };
+            let p = if base == 0 { Parser::new(&ts[i]) } else { Parser::with_start_offset(&ts[i], base) };
+            dfs(r, &mut cx, p, false, cfg.by(1, 2, 2));
+        }
+    }));
     // numbers: leading zeros, the neighbours of the digits in the code table, values around the u8/i8 limits
     let nalpha = ["0", "1", "9", "-", ":", "25"];
     let ns = strings_upto(&nalpha, cfg.by(1, 4, 5));
